@@ -37,19 +37,14 @@ func checkC17(r *Run) {
 	}
 	if recv := r.mustFunc("r1", "p9", "recv"); recv != nil {
 		okHdr := false
-		for _, s := range m.callsIn(recv, "io.ReadAtLeast") {
-			if len(s.Call.Args) == 3 {
-				if v, ok := constInt(info, s.Call.Args[2]); ok && v == 7 {
-					// destination: a full slice of a 7-byte array
-					if sl, isSl := unparen(s.Call.Args[1]).(*ast.SliceExpr); isSl && sl.Low == nil && sl.High == nil {
-						if at, isArr := info.TypeOf(sl.X).Underlying().(*types.Array); isArr && at.Len() == 7 {
-							okHdr = true
-						}
-					}
-				}
+		// (destination: a full slice of a 7-byte array; io.ReadFull is ReadAtLeast with the
+		// length of the destination)
+		for _, s := range append(m.callsIn(recv, "io.ReadAtLeast"), m.callsIn(recv, "io.ReadFull")...) {
+			if fullHeaderRead(info, s.Call) {
+				okHdr = true
 			}
 		}
-		r.check(okHdr, "r1", "recv reads the whole header or fails", recv.Decl.Pos(), "io.ReadAtLeast(r, hdr[:], 7)", "the 7-byte header is not read with io.ReadAtLeast(..., headerLength): a header split across reads would be parsed incomplete")
+		r.check(okHdr, "r1", "recv reads the whole header or fails", recv.Decl.Pos(), "io.ReadAtLeast(r, hdr[:], 7)", "the 7-byte header is not read with io.ReadAtLeast(..., headerLength) / io.ReadFull: a header split across reads would be parsed incomplete")
 		nrf := len(m.callsIn(recv, "vecnet.Buffers.ReadFrom"))
 		r.check(nrf == 1, "r1", "recv reads bodies through Buffers.ReadFrom", recv.Decl.Pos(), "1 call", fmt.Sprintf("%d calls of vecs.ReadFrom in recv", nrf))
 		// r4: both error branches are ConnErrors
